@@ -246,7 +246,9 @@ def token_case(rng, seed):
     tokchild = {"StartAt": "C", "States": {"C": {"Type": "Task", "Resource": F + "cb", "End": True}}}
     reply = [{"noreply": True}]
     if stream == "reply-then-callback":
-        reply = [{"ok": {"op": "const", "value": {"ordinary": "reply"}}, "delay": 0.5}]
+        # the worker's ordinary RPC reply may be any JSON value: none of them completes a task that waits for its token
+        reply = [{"ok": {"op": "const", "value": rng.choice([{"ordinary": "reply"}, {"ordinary": "reply"}, "plain text", [1, 2],
+                                                            7, None, True, {}, []])}, "delay": 0.5}]
     if stream == "error-reply" and flavour == "rpc":
         reply = [{"err": "E.Worker", "msg": "worker said no", "delay": 0.5}]
     script = {"cb": reply}
